@@ -23,6 +23,8 @@ def handle (line : String) : String :=
   | "Z" :: rest => ProtoZkif.handleZkif rest
   | "Q" :: rest => ProtoQaptools.handleQap rest
   | "PH" :: rest => ProtoHash.handlePoseidon rest
+  | "PS" :: rest => ProtoHash.handleParams rest
+  | "PG" :: rest => ProtoHash.handleGgh rest
   | "NI" :: rest => ProtoStruct.handleSnark true rest
   | "NO" :: rest => ProtoStruct.handleSnark false rest
   | _ => "bad-line"
